@@ -2,6 +2,7 @@ mod alloc_track;
 mod c01;
 mod c02;
 mod c07;
+mod c07_lsn;
 mod c08;
 mod c09;
 mod c10;
@@ -34,6 +35,9 @@ fn main() {
     };
     if id == "C04-worker" {
         std::process::exit(c04::worker_main(&args[1..]));
+    }
+    if id == "C06-one" {
+        std::process::exit(c06::one_main(&args[1..]));
     }
     if id == "C04-one" {
         std::process::exit(c04::one_main(&args[1..]));
